@@ -255,7 +255,43 @@ func RunC12(ctx *core.Ctx) *core.Violation {
 		case ctorOwnBytesReader:
 			m.z = mkR(faultio.BytesReader{Reader: faultio.NewReader(ctx, b, faultio.Plan{FailAt: -1})})
 		case ctorBufferReader:
-			m.z = mkR(buffer.NewReader(b))
+			if t.Chance(1, 2) {
+				// the bytes reach the Reader through a buffer.Writer (written in pieces, grown on
+				// the way, sometimes reset and written again): the array is then the Writer's
+				w := buffer.NewWriter(make([]byte, 0, t.Pick(0, 1, n/2, n, n+1, n+5)))
+				for round := 0; round < 2; round++ {
+					for off := 0; off < n; {
+						k := 1 + t.Draw(n-off)
+						w.Write(data[off : off+k])
+						off += k
+					}
+					if round == 0 && t.Chance(3, 4) {
+						break
+					}
+					if round == 0 {
+						w.Reset()
+					}
+				}
+				b = w.Bytes()
+				if w.Len() != n || len(b) != n {
+					return m.viol("writer-len-wrong", "buffer.Writer holds %d bytes (Len() %d) after %d were written", len(b), w.Len(), n)
+				}
+				m.backing = b[:cap(b)]
+				for i := n; i < len(m.backing); i++ {
+					m.backing[i] = byte(0x80 + i%0x40)
+				}
+				m.snap = append([]byte(nil), m.backing...)
+				m.borrow = cap(b) > n && n > 0
+				ctx.Count("probe_reader_over_writer_bytes")
+			}
+			rb := buffer.NewReader(b)
+			if t.Chance(1, 4) {
+				rb.Reset() // a Reader that was rewound before use
+			}
+			if rb.Len() != n {
+				return m.viol("reader-len-wrong", "buffer.Reader.Len() = %d over %d bytes", rb.Len(), n)
+			}
+			m.z = mkR(rb)
 		case ctorBytesBuffer:
 			bb := bytes.NewBuffer(b)
 			if n > 0 && t.Chance(1, 3) {
